@@ -227,12 +227,38 @@ func (e *env) crashPoint(h int64, j, j2 int) {
 		lab = w[j-1]
 	}
 	e.r.Count("crash-before:" + strings.Split(lab, ":")[0] + ":" + keyClass(lab))
-	code, msg := e.child(90*time.Second, "-dir", d, "-run", "-upto", fmt.Sprint(e.upto), "-plan", e.plan, "-crash", fmt.Sprintf("height=%d,j=%d", h, j))
+	crashOut := filepath.Join(e.root, "crashout.txt")
+	os.Remove(crashOut)
+	code, msg := e.child(90*time.Second, "-dir", d, "-run", "-upto", fmt.Sprint(e.upto), "-plan", e.plan, "-crash", fmt.Sprintf("height=%d,j=%d", h, j), "-crashout", crashOut)
 	if code != 137 {
 		// the write sequence of this run was shorter than the reference's (timing of rounds): not a crash
 		e.r.Count("crash-point-not-reached")
 		_ = msg
 		return
+	}
+	// The transactions need not land in the same blocks as in the reference run (the feeder and the
+	// proposer race), so this commit's write sequence may differ from the recorded one - one application
+	// batch more or less. The model is told what THIS process had written when it died.
+	prefix := ""
+	if bz, err := ioutil.ReadFile(crashOut); err == nil {
+		done := strings.Split(strings.TrimSpace(string(bz)), "\n")
+		done = done[:len(done)-1] // the last line is the write it died before
+		same := len(done) == j-1
+		var cs []string
+		for i, l := range done {
+			c := strings.Split(l, ":")[0] + ":" + keyClass(l)
+			cs = append(cs, c)
+			if same && (i >= len(w) || strings.Split(w[i], ":")[0]+":"+keyClass(w[i]) != c) {
+				same = false
+			}
+		}
+		if !same {
+			prefix = " prefix=" + strings.Join(cs, ",")
+			if len(cs) == 0 {
+				prefix = " prefix=-"
+			}
+			e.r.Count("write-sequence-differs-from-reference")
+		}
 	}
 	pre := e.inspect(d)
 	at := fmt.Sprintf(":store=h%+d,state=h%+d,app=h%+d", pre.StoreHeight-h, pre.StateHeight-h, pre.AppHeight-h)
@@ -270,7 +296,7 @@ func (e *env) crashPoint(h int64, j, j2 int) {
 	}
 	ans := fmt.Sprintf("pre=%s restart=%s", rel(pre), restart)
 	e.r.Distinct(fmt.Sprintf("%s/%s/%d", keyClass(lab), rel(pre), j2))
-	e.emit(fmt.Sprintf("crash h=%d j=%d j2=%d%s", h, j, j2, seen), tail, ans)
+	e.emit(fmt.Sprintf("crash h=%d j=%d j2=%d%s%s", h, j, j2, seen, prefix), tail, ans)
 	if restart == "fail" {
 		fail(fmt.Sprintf("node-cannot-restart:store=h%+d,state=h%+d,app=h%+d", pre.StoreHeight-h, pre.StateHeight-h, pre.AppHeight-h),
 			fmt.Sprintf("the process died before write %d (%s) of the commit of height %d; durable then: store %d, state %d, application %d (opens: %v %s); restart: %s",
